@@ -27,7 +27,8 @@ theorem uint64_literal_roundtrip (v : Nat) (hv : v < 2 ^ 64) : parseNum (decNat 
   parseNum_decNat v [125] hv (nonDigit_125 [])
 
 /-- The decoder only ever returns nil, a canonical map, or `opaque` (bytes outside the modelled class). -/
-theorem reqIds_parsed_canon (raw : Bytes) : (∃ r, decReqIds raw = .opaque r) ∨ ReqIdsCanon (decReqIds raw) :=
+theorem reqIds_parsed_canon (raw : Bytes) :
+    (∃ r, decReqIds raw = .opaque r) ∨ (∃ kvs, decReqIds raw = .mapEsc kvs) ∨ ReqIdsCanon (decReqIds raw) :=
   decReqIds_canon raw
 
 /-- Times `MarshalBinary` carries and a canonical RequestIds map — no JSON hypothesis left. -/
@@ -49,7 +50,7 @@ theorem block_lossless_canon (b : Block) (h : Header) (hh : b.header = some h) (
   block_lossless b h hh (headerOK_of_canon h c) fits hp ht
 
 theorem parsed_requestIds (bs : Bytes) (h : Header) (hu : unmarshalHeader bs = .ok h) :
-    (∃ r, h.requestIds = .opaque r) ∨ ReqIdsCanon h.requestIds := by
+    (∃ r, h.requestIds = .opaque r) ∨ (∃ kvs, h.requestIds = .mapEsc kvs) ∨ ReqIdsCanon h.requestIds := by
   unfold unmarshalHeader at hu
   cases hd : decHeader bs with
   | none => simp [hd] at hu
@@ -73,18 +74,20 @@ theorem parsed_requestIds (bs : Bytes) (h : Header) (hu : unmarshalHeader bs = .
           simp only [hpt, hct, Outcome.ok.injEq] at hph
           subst hph
           cases p.requestIds with
-          | none => exact Or.inr trivial
+          | none => exact Or.inr (Or.inr trivial)
           | some raw => exact reqIds_parsed_canon raw
 
 /-- `parsed_fixed_point_partial` without the JSON hypothesis: a header obtained by parsing whose
     RequestIds bytes were in the modelled class and whose times `MarshalBinary` carries is a fixed
     point of the next Marshal/UnMarshal pass (same content, same GenHash). -/
 theorem parsed_fixed_point_partial_canon (bs : Bytes) (h : Header) (hu : unmarshalHeader bs = .ok h)
-    (hpt : TimeOK h.preTime) (hct : TimeOK h.curTime) (hno : ∀ r, h.requestIds ≠ .opaque r)
+    (hpt : TimeOK h.preTime) (hct : TimeOK h.curTime)
+    (hno : ∀ r, h.requestIds ≠ .opaque r) (hne : ∀ kvs, h.requestIds ≠ .mapEsc kvs)
     (fits : HeaderFits h) : passIsIdentity h = true := by
   have hc : ReqIdsCanon h.requestIds := by
-    rcases parsed_requestIds bs h hu with ⟨r, hr⟩ | hc
+    rcases parsed_requestIds bs h hu with ⟨r, hr⟩ | ⟨kvs, hr⟩ | hc
     · exact absurd hr (hno r)
+    · exact absurd hr (hne kvs)
     · exact hc
   obtain ⟨b, hb, hub, _⟩ := parsed_fixed_point_partial bs h hu (headerOK_of_canon h ⟨hpt, hct, hc⟩) fits
   simp [passIsIdentity, hb, hub]
